@@ -498,3 +498,50 @@ def ex_funfit(c):
 
 
 EXECUTORS.update({"rfa": ex_rfa, "rfa_reject": ex_rfa_reject, "funfit": ex_funfit})
+
+
+# ---------------------------------------------------------------------------------------------- C07 relations between runs
+from fractions import Fraction as _Fr  # noqa: E402
+
+
+def _fr(r):
+    return _Fr(r[0], r[1])
+
+
+def ex_rfa_rel(c):
+    X = [_fr(r) for r in c["x"]]
+    Y = [_fr(r) for r in c["y"]]
+    base = {k: c[k] for k in ("strategy", "n", "a", "alpha", "beta", "exp", "smooth") if k in c}
+    for k in ("exp_f", "smooth_f"):
+        if k in c:
+            base[k] = c[k]
+
+    def run(xs, ys):
+        xa = np.array([float(v) for v in xs])
+        ya = np.array([float(v) for v in ys])
+        o = rfa_run(dict(base), xa, ya)
+        return {"outx": vec(o[0]), "outy": vec(o[1])}
+
+    def go():
+        rel = c["rel"]
+        if rel == "affine":
+            ay, by, cx, dx = (_fr(r) for r in c["maps"])
+            return [run(X, Y), run([cx * v + dx for v in X], [ay * v + by for v in Y])]
+        if rel == "local":
+            y2 = list(Y)
+            y2[c["j"]] += _fr(c["delta"])
+            return [run(X, Y), run(X, y2)]
+        if rel == "linear":
+            y2 = [_fr(r) for r in c["y2"]]
+            return [run(X, Y), run(X, y2), run(X, [a + b for a, b in zip(Y, y2)])]
+        if rel == "weights":
+            m = len(Y)
+            return [run(X, [1 if i == j else 0 for i in range(m)]) for j in range(m)]
+        raise ValueError(rel)
+    oc, o = guarded(go)
+    e = {k: v for k, v in c.items() if k not in ("exp_f", "smooth_f")}
+    e.update(outcome=oc, runs=o if o else [])
+    return e
+
+
+EXECUTORS.update({"rfa_rel": ex_rfa_rel})
